@@ -200,7 +200,9 @@ pub fn scenario(p: &GenParams) -> BoxedStrategy<Scenario> {
             }
             // "stop short of a disconnect" by construction: with outages or pauses in the case the
             // timeouts are raised well above anything the schedule can produce
-            if !sc.ops.is_empty() && sc.timeout_ms < 10_000 {
+            // (also under heavy loss: during a handshake only one packet per 200 ms is sent, and eight
+            // to ten consecutive losses at 40 % do happen in thousands of cases)
+            if (!sc.ops.is_empty() || sc.link.loss >= 20) && sc.timeout_ms < 10_000 {
                 sc.notify_ms = 2000;
                 sc.timeout_ms = 10_000;
             }
